@@ -19,6 +19,7 @@ type Config struct {
 	Workers    int
 	TimeoutMs  int
 	ZTimeoutMs int
+	CTimeoutMs int
 	MaxPaths   int // per harness (safety net)
 	MaxSteps   int
 	MaxDepth   int
@@ -133,7 +134,7 @@ func (sh *Shared) explore() {
 			defer wg.Done()
 			ex := &Exec{sh: sh, prog: sh.prog, id: id, posCache: map[ssa.Instruction]string{}}
 			if !sh.cfg.Concrete {
-				ex.cvc = NewSolver("cvc5", sh.cfg.TimeoutMs)
+				ex.cvc = NewSolver("cvc5", sh.cfg.CTimeoutMs)
 				ex.z3 = NewSolver("z3", sh.cfg.ZTimeoutMs)
 			}
 			sh.worker(ex)
